@@ -65,6 +65,7 @@ Fixpoint tokens (t : term) {struct t} : list string :=
         let pairs := combine ks kts in
         let lts := map snd (filter (fun p => is_lifetime_arg (fst p)) pairs) in
         let others := map snd (filter (fun p => negb (is_lifetime_arg (fst p))) pairs) in
+        (if String.eqb (ld l) "" then [] else [ld l]) ++
         "<"%string :: sep_by ","%string (lts ++ others) ++ [">"%string]
       else if is_kind "Lifetime" l then [("'" ++ ld l)%string]
       else if is_kind "GConst" l then
